@@ -313,6 +313,7 @@ func checkC09(c *core.Ctx) {
 			b, _ := json.Marshal(map[string]any{"id": id, "doc": gtNorm(tree), "links": facts})
 			lines = append(lines, b)
 			events = append(events, int64(len(facts)))
+			docs[id] = text
 			// the links are written by the walk, whatever rules listen: the same document validated
 			// on a fresh parse with a subset of the rules (none, no value-observing rule, no
 			// directive-observing rule, ...) must carry the same links
@@ -331,7 +332,6 @@ func checkC09(c *core.Ctx) {
 					docs[id] = text + "   [validated with " + sub.name + "]"
 				}
 			}
-			docs[id] = text
 			if len(o.Doc.Fragments) > 0 || len(facts) > 12 {
 				nontrivial++
 			}
